@@ -14,6 +14,7 @@ from checklib import *
 PROPS = {
     'C01': dict(kind='t1', units='C01', corr_quick=100, corr_thorough=5000),
     'C13': dict(kind='t1', units='C13', corr_quick=300, corr_thorough=20000),
+    'C16': dict(kind='t1', units='C16', corr_quick=100, corr_thorough=2000, layout=True),
     'C17': dict(kind='t1', units='C17', corr_quick=20, corr_thorough=500),
     'C19': dict(kind='t1', units='C19', corr_quick=300, corr_thorough=20000),
     'C02': dict(kind='t1', units='C02', corr_quick=60, corr_thorough=4000),
@@ -73,6 +74,11 @@ def run_t1(prop, cfg, tier, seed):
         else:
             e = gen_lean(units_path, prop)
             if e: broken_tie = 'translator: gen_lean failed: ' + e[-600:]
+    layout_info = None
+    if cfg.get('layout') and not broken_tie:
+        rows_path, lerr, nrows = layout_rows()
+        layout_info = dict(rows=nrows, rows_file=os.path.relpath(rows_path, VERIF))
+        if lerr: broken_tie = 'translator: ' + lerr
     traced = open(units_path).read() if os.path.exists(units_path) else ''
     n_units = len(re.findall(r'^U ', traced, flags=re.M))
     n_failed_trace = len(re.findall(r'^X ', traced, flags=re.M))
@@ -167,12 +173,13 @@ def run_t1(prop, cfg, tier, seed):
         for m in re.finditer(r'^CEX (\S+) comp (\d+) in #\[([^\]]*)\] model (\d+) spec (\d+)(?: fam (\S+) plain (\w+))?', out, flags=re.M):
             cex[m.group(1)] = (int(m.group(2)), [int(x) for x in m.group(3).split(',') if x.strip()], int(m.group(4)), int(m.group(5)))
             cex_plain[m.group(1)] = (m.group(7) != 'false', m.group(6))
+        int_units = set(m.group(1) for m in re.finditer(r'^CEX (\S+) .* int$', out, flags=re.M))
         failing_fams = set()
         for fam, unit in fails:
             failing_fams.add(fam)
             if unit in cex:
                 comp, bits, mval, sval = cex[unit]
-                outs = eval_unit(bins, unit, 'f64', bits)
+                outs = eval_unit(bins, unit, 'i32' if unit in int_units else 'f64', bits)
                 k = is_known(known, unit, comp)
                 glm_val = outs[comp] if (outs is not None and comp < len(outs)) else None
                 if outs is not None and not cex_plain.get(unit, (True, ''))[0]:
@@ -183,7 +190,7 @@ def run_t1(prop, cfg, tier, seed):
                         if mm.group(1) == cex_plain[unit][1]: glm_val, sval = int(mm.group(2)), int(mm.group(3))
                 if glm_val is not None and glm_val != sval:
                     if k: known_hits[(unit, k['what'])] = k; continue
-                    violations.append(dict(property=prop, kind='glm-output-differs-from-specification', unit=unit, type='f64', component=comp,
+                    violations.append(dict(property=prop, kind='glm-output-differs-from-specification', unit=unit, type=('int32/uint32 values' if unit in int_units else 'f64'), component=comp,
                                            input_bits=bits, spec_bits=sval, glm_bits=glm_val, model_bits=mval,
                                            failing_theorem='%s_ok' % fam, replay='trace unit binary: eval %s f64 <input_bits>' % unit))
                     continue
@@ -197,6 +204,19 @@ def run_t1(prop, cfg, tier, seed):
             fam = re.sub(r'_(ok|correct|spec)$', '', short)
             if fam not in failing_fams and not any(fam.startswith(f) or f.startswith(fam) for f in failing_fams):
                 unexplained.append('theorem %s no longer checks' % t)
+    # layout table: list the rows that break the contract (each row is a concrete replay)
+    if cfg.get('layout') and okd and os.path.exists(os.path.join(CACHE, 'C16.rows')):
+        rc3, out3 = sh([DRIVER, 'layout', os.path.join(CACHE, 'C16.rows')], timeout=600)
+        badrows = [l for l in out3.split('\n') if l.startswith('BADROW')]
+        m3 = re.search(r'LAYOUT rows=(\d+) bad=(\d+)', out3)
+        if layout_info is not None and m3: layout_info.update(rows_checked=int(m3.group(1)), rows_bad=int(m3.group(2)))
+        for l in badrows[:5]:
+            violations.append(dict(property=prop, kind='layout-row-breaks-documented-contract', unit='layout', component=0, row=l[7:],
+                                   columns='cfg kind C R tsize talign isfloat aligned qual sizeof alignof value_ptr_offset length length_type_size aux | element byte offsets',
+                                   replay='extract/layout_probe.py <glm root> rows.txt cache ; driver layout rows.txt'))
+        if 'Glm.Props.C16.rows_ok' in failing and not badrows:
+            unexplained.append('theorem Glm.Props.C16.rows_ok no longer checks')
+        failing_rows_explained = bool(badrows)
     elif failing or broken_tie or audit_problems:
         unexplained += ['theorem %s no longer checks' % t for t in failing]
     if broken_tie: unexplained.append(broken_tie)
@@ -242,7 +262,7 @@ def run_t1(prop, cfg, tier, seed):
         rule='correspondence: each evaluation is one (unit, input tuple) run through the real glm (float and double) and through E.eval of the generated model, '
              'outputs compared bit for bit; inputs: small integers / uniform / wide-magnitude / special-value lattice from xoshiro256** seeded by VERIF_SEED; '
              'non-trivial = some output component is neither zero nor a copy of an input; spec comparisons = glm output vs textbook spec, exact on small-integer inputs',
-        correspondence=corr, numeric_exploration=explore, samples=samples, notes=notes, exhaustive=False)
+        correspondence=corr, layout=layout_info, numeric_exploration=explore, samples=samples, notes=notes, exhaustive=False)
     write_evidence(prop, tier, seed, coverage,
                    ['see DESIGN.md §5 (trusted base) and the per-property "Outside the theorem" paragraph'],
                    time.time() - t0, nviol)
